@@ -370,6 +370,13 @@ func genCase(o genOpts) func(*rapid.T) Case {
 			allowOv := o.class == "" && !clean && rapid.IntRange(0, 19).Draw(t, "ov") == 0 // small share: visible in the Excluded counter
 			c.Lines = append(c.Lines, genLine(t, b, op, clean, allowOv || o.class == "tsp", o.class == "D1", o.class == "getid64"))
 		}
+		if o.class == "" && rapid.IntRange(0, 2).Draw(t, "noisy") == 0 {
+			// comment and blank lines between the instructions of the program (Assembler_process_line
+			// answers "" for them: they occupy no ROM location)
+			for i := 0; i <= len(c.Lines); i++ {
+				c.Noise = append(c.Noise, rapid.SampledFrom([]string{"", "", "# a comment", "#", "#nop", "  # r0 r1", "", " ", "\t"}).Draw(t, "noise"))
+			}
+		}
 		return c
 	}
 }
@@ -486,8 +493,17 @@ func prop(c Case) pbt.Outcome {
 		if len(v.Text) > 240 { // Arch.Assembler copies a line into a 256-byte buffer
 			return finish()
 		}
+		if i < len(c.Noise) && c.Noise[i] != "" {
+			src.WriteString(c.Noise[i])
+			src.WriteString("\n")
+			lab("program:noise-lines")
+		}
 		src.WriteString(v.Text)
 		src.WriteString("\n")
+		if i == len(verdicts)-1 && len(c.Noise) > len(verdicts) && c.Noise[len(verdicts)] != "" {
+			src.WriteString(c.Noise[len(verdicts)])
+			src.WriteString("\n")
+		}
 		if !v.Accepted {
 			fam, _ := familyOf(c.Lines[i].Op)
 			if operandKinds[fam].stub {
